@@ -154,8 +154,6 @@ func (d *dir) RepoGet(ctx context.Context, repoStr string) (Repo, error) {
 		uploadCacheOpts.Age = d.conf.Storage.GC.GracePeriod
 	}
 	dr.uploads = cache.New[string, *dirRepoUpload](uploadCacheOpts)
-	dr.wgBlock <- struct{}{}
-	d.repos.Set(repoStr, &dr)
 	statDir, err := os.Stat(dr.path)
 	if err == nil && statDir.IsDir() {
 		statIndex, errIndex := os.Stat(filepath.Join(dr.path, indexFile))
@@ -166,6 +164,9 @@ func (d *dir) RepoGet(ctx context.Context, repoStr string) (Repo, error) {
 		}
 	}
 	dr.wg.Add(1)
+	// the repo is made visible to the GC only after it is initialized and counted as in use
+	dr.wgBlock <- struct{}{}
+	d.repos.Set(repoStr, &dr)
 	return &dr, nil
 }
 
@@ -361,8 +362,12 @@ func (dr *dirRepo) blobCreate(locked bool, opts ...BlobOpt) (BlobCreator, string
 			return nil, "", err
 		}
 	}
+	if !locked {
+		dr.mu.Lock()
+		defer dr.mu.Unlock()
+	}
 	if !dr.exists {
-		err := dr.repoInit(locked)
+		err := dr.repoInit(true)
 		if err != nil {
 			return nil, "", err
 		}
@@ -376,10 +381,6 @@ func (dr *dirRepo) blobCreate(locked bool, opts ...BlobOpt) (BlobCreator, string
 		if err == nil {
 			return nil, "", types.ErrBlobExists
 		}
-	}
-	if !locked {
-		dr.mu.Lock()
-		defer dr.mu.Unlock()
 	}
 	sessionID, err := genSessionID()
 	if err != nil {
